@@ -11,7 +11,7 @@ from . import wl_groups as wl
 PROPERTY = "C27"
 LEVEL = "exploration"
 SCENARIOS = {"safe-closed": 3, "safe-open": 1}
-TIERS = {"quick": {"runs": 5000, "chunk": 20}, "thorough": {"runs": 160000, "chunk": 100}}
+TIERS = {"quick": {"runs": 5000, "chunk": 20}, "thorough": {"runs": 50000000, "wall_s": 600, "chunk": 100, "recheck": 16}}
 RULE = ("one run = a Valve device in a real slow SyncGroup on the simulated bus (one digital "
         "input terminal for the two switches, one digital output terminal for the coil); a "
         "simulated valve plant (travel time, stuck open/closed/mid, bouncing switches) "
